@@ -37,12 +37,12 @@ type c12env struct {
 // offsets from the simulated base clock 2026-01-02T03:04:05.000000006Z: a tick, a day, a jump back, a year, and
 // the instants just before a minute / hour / day / month / year rolls over
 var clockOffsets = []time.Duration{0, 1, 24 * time.Hour, -time.Hour, 365 * 24 * time.Hour,
-	54*time.Second + 999*time.Millisecond,                                 // 03:04:59.999
-	55*time.Minute + 54*time.Second + 999*time.Millisecond,                // 03:59:59.999
-	20*time.Hour + 55*time.Minute + 54*time.Second + 999*time.Millisecond, // 23:59:59.999
+	54*time.Second + 999*time.Millisecond,                                          // 03:04:59.999
+	55*time.Minute + 54*time.Second + 999*time.Millisecond,                         // 03:59:59.999
+	20*time.Hour + 55*time.Minute + 54*time.Second + 999*time.Millisecond,          // 23:59:59.999
 	(29*24+20)*time.Hour + 55*time.Minute + 54*time.Second + 999*time.Millisecond,  // Jan 31 23:59:59.999
 	(363*24+20)*time.Hour + 55*time.Minute + 54*time.Second + 999*time.Millisecond, // Dec 31 23:59:59.999
-	-(2*24 + 3) * time.Hour,                                               // previous year
+	-(2*24 + 3) * time.Hour, // previous year
 }
 var historyNames = []string{"fresh", "repeat-in-process", "after-other-spec", "separate-process", "dir-mode-after-sibling"}
 
@@ -114,23 +114,23 @@ func pickInvocation(job *Job, run int) (gencore.Invocation, *gencore.Invocation)
 }
 
 type c12outcome struct {
-	violated bool
-	class    string // differs | outcome
-	detail   string
-	deviated []int
-	h        int
-	toff     time.Duration
-	ambient  int
-	late     bool
-	faultAt   int
-	faultKind string
-	stall    bool // timers set by the generator have already expired when consulted
-	sched    int    // scheduling decisions among the generator's own goroutines that did not take the first candidate
+	violated   bool
+	class      string // differs | outcome
+	detail     string
+	deviated   []int
+	h          int
+	toff       time.Duration
+	ambient    int
+	late       bool
+	faultAt    int
+	faultKind  string
+	stall      bool // timers set by the generator have already expired when consulted
+	sched      int  // scheduling decisions among the generator's own goroutines that did not take the first candidate
 	schedTasks int
-	gaveUp   string
-	dirstate int // 0 empty out dir, 1 user Go files of the same package already there, 2 stale output of another invocation there
-	events   []string
-	skipped  string
+	gaveUp     string
+	dirstate   int // 0 empty out dir, 1 user Go files of the same package already there, 2 stale output of another invocation there
+	events     []string
+	skipped    string
 }
 
 // execC12 runs one C12 case from the given tape.
